@@ -160,6 +160,15 @@ fn run_once_h(sc: &Scenario, prefix: Vec<usize>, dir: &Path, horizon_ns: i64, lo
         }
     }
     vclock::global_disarm();
+    // ShmWriter::new leaves one descriptor open per writer (see DESIGN.md 2.6): close them now and then
+    thread_local! { static SINCE: std::cell::Cell<u32> = const { std::cell::Cell::new(0) }; }
+    if SINCE.with(|c| { c.set(c.get() + 1); c.get() }) >= 400 {
+        SINCE.with(|c| c.set(0));
+        if let Some(p) = SHM_PATH.lock().unwrap().clone() {
+            crate::seqmc::engine::close_leaked_fds(&p);
+        }
+        crate::seqmc::engine::close_leaked_fds(&dir.join("shm"));
+    }
     let main_unwound_by = match &r {
         Ok(()) => None,
         Err(p) => Some(if p.downcast_ref::<sched::DrainSentinel>().is_some() { "tear-down".to_string() } else { p.downcast_ref::<&str>().map(|s| s.to_string()).or_else(|| p.downcast_ref::<String>().cloned()).unwrap_or_else(|| "panic".into()) }),
@@ -279,6 +288,16 @@ fn explore(sc: &Scenario, prefix: Vec<usize>, bound: usize, dir: &Path, h: i64, 
         return;
     }
     let e = run_once(sc, prefix.clone(), dir, h, false);
+    if e.rep.events.iter().any(|x| x.starts_with("DIVERGENCE")) {
+        // diagnostics: the same prefix and its parent, re-run with the event log on
+        let mut dump = format!("scenario {}\nprefix {:?}\n--- diverging run (re-run with log)\n", sc.json(), prefix);
+        let again = run_once(sc, prefix.clone(), dir, h, true);
+        dump += &again.rep.events.join("\n");
+        dump += "\n--- parent prefix\n";
+        let parent = run_once(sc, prefix[..prefix.len().saturating_sub(1)].to_vec(), dir, h, true);
+        dump += &parent.rep.events.join("\n");
+        let _ = std::fs::write(format!("/tmp/c15-divergence-{}.txt", std::process::id()), &dump);
+    }
     judge(sc, &e, tally);
     for i in prefix.len()..e.trace.len() {
         let s = &e.trace[i];
